@@ -233,6 +233,16 @@ func (d *Decoder) decompress(claimedUncompressedSize int, rd io.Reader) (decompr
 	if err != nil {
 		return nil, fmt.Errorf("error decompressing payload: %w", err)
 	}
+	// The body must inflate to exactly the claimed size. Reading to the end of
+	// the stream also verifies its checksum.
+	var extra [1]byte
+	if _, err = io.ReadFull(d.zrd, extra[:]); err != io.EOF {
+		if err == nil {
+			return nil, errs.NewSilentErr("compressed payload inflates to more than the claimed size %d",
+				claimedUncompressedSize)
+		}
+		return nil, fmt.Errorf("error decompressing payload: %w", err)
+	}
 	return decompressed, d.zrd.Close()
 }
 
